@@ -7,21 +7,27 @@ import GoSQLXModel.Proofs.ExprRoundTrip
 > modifier, alias, name and literal written in the text appears in the tree with its written value while nothing
 > unwritten appears. A statement of that surface is never rejected.
 
-Model: `Model/ExprParse.lean`, the expression ladder of expressions.go for its core sub-language (OR, AND, NOT,
-comparisons, `||`, `+ −`, `* / %`, identifiers, literals, parentheses), with the depth counter; token classes by the
-names of `models.TokenType` constants whose numbers are regenerated; `unsupported` (never a guess) on every token that
-would take the real parser into a production the model does not cover.
+Model: `Model/ExprParse.lean`, the expression ladder of expressions.go (OR, AND, NOT, comparisons, IS [NOT] NULL,
+[NOT] BETWEEN, [NOT] LIKE / ILIKE / REGEXP / RLIKE, [NOT] IN (list), `||`, `+ −`, `* / %`, identifiers, plain function
+calls, literals, parentheses), with the depth counter, the literal-based tests of the real code and its error
+re-wrapping; token classes by the names of `models.TokenType` constants whose numbers are regenerated; `unsupported`
+(never a guess) on every token that would take the real parser into a production the model does not cover.
+Reference grammar and rendering: `Model/ExprGrammar.lean`.
 
-* `parse_render` (Proofs/ExprRoundTrip.lean): for every model expression `g`, `pExpr (render 1 g ++ X) = ok g X` for
+* `parse_render` (Proofs/ExprRoundTrip.lean): for every well-formed model expression `g` (`G.WF`: what real token
+  streams satisfy — an operator or keyword token is not spelled ILIKE / REGEXP / RLIKE, the keyword after a predicate's
+  NOT is spelled as the look-ahead expects, a function is not named MATCH), `pExpr (render 1 g ++ X) = ok g X` for
   every continuation `X` that starts no operator, given room under the depth limit — precedence, left
-  associativity, parentheses overriding, spelling of every operator and atom preserved, nothing added, never rejected.
+  associativity, parentheses overriding, predicates and their operand levels, argument lists, spelling of every
+  operator and atom preserved, nothing added, never rejected.
 * Tie: correspondence (driver op `expr`) of the model with `parseExpression` (hook `VerifExprAt`) on rendered model
   expressions, corrupted token lists and deep nests around the limit; and the oracle of the property itself: the real
   tree of every generated statement (queries with joins, sub-queries, CTEs, set operations, grouping, ordering, limits;
   INSERT / UPDATE / DELETE with RETURNING) compared field by field with the generator's model tree.
 
-**Partial**: predicates beyond comparison (BETWEEN, IN, LIKE, IS NULL), function calls, CASE, CAST, sub-queries and
-the statement level are not in the Lean model; for them the decision is the oracle alone.
+**Partial**: CASE, CAST, sub-queries (EXISTS, IN (SELECT …), scalar), qualified names, `::` / JSON operators, window
+and aggregate modifiers of calls, and the statement level are not in the Lean model; for them the decision is the
+oracle alone.
 -/
 namespace GoSQLXModel.Props.C03
 open GoSQLXModel GoSQLXModel.ExprParse
@@ -36,13 +42,15 @@ theorem gen_classes_present :
     (["TokenTypeOr", "TokenTypeAnd", "TokenTypeNot", "TokenTypeEq", "TokenTypeNeq", "TokenTypeLt", "TokenTypeGt", "TokenTypeLtEq",
       "TokenTypeGtEq", "TokenTypeStringConcat", "TokenTypePlus", "TokenTypeMinus", "TokenTypeAsterisk", "TokenTypeMul", "TokenTypeDiv",
       "TokenTypeMod", "TokenTypeLParen", "TokenTypeRParen", "TokenTypeIdentifier", "TokenTypeNumber", "TokenTypeSingleQuotedString",
-      "TokenTypeTrue", "TokenTypeFalse", "TokenTypeNull", "TokenTypeEOF", "TokenTypeComma", "TokenTypeDoubleColon"].all
+      "TokenTypeTrue", "TokenTypeFalse", "TokenTypeNull", "TokenTypeEOF", "TokenTypeComma", "TokenTypeDoubleColon",
+      "TokenTypeIs", "TokenTypeBetween", "TokenTypeLike", "TokenTypeILike", "TokenTypeIn"].all
         fun n => Gen.Lex.tokenTypes.any (·.1 == n)) = true := by decide +kernel
 
 /-- **C03 (expression ladder)** -/
-theorem expression_round_trip (g : G) (X : List PTok) (hp : PrimStop X) (hn : N1 X) (hd : need 1 g + 1 ≤ maxDepth) :
+theorem expression_round_trip (g : G) (hw : g.WF = true) (X : List PTok) (hp : PrimStop X) (hn : N1 X)
+    (hd : need 1 g + 1 ≤ maxDepth) :
     ∃ f0, ∀ f, f0 ≤ f → pExpr f 0 (render 1 g ++ X) = .ok g.toEx X :=
-  parse_render g X hp hn hd
+  parse_render g hw X hp hn hd
 
 /-! non-vacuity and the textbook cases, evaluated on the model -/
 def a : G := .atom (.ident "a")
@@ -51,22 +59,41 @@ def c : G := .atom (.ident "c")
 def eof : PTok := ⟨.stop, ""⟩
 def tk (k : TK) (s : String) : PTok := ⟨k, s⟩
 
+/-- the hypotheses of the theorem are satisfiable: an end marker is a continuation that starts no operator -/
+example : PrimStop [eof] ∧ N1 [eof] := by
+  have h : ∀ k : TK, k ≠ .stop → HeadNot [eof] k := fun k hk => headNot_cons (by simpa [eof] using fun e => hk e.symm)
+  have hp : HeadPlain [eof] := headPlain_cons (by decide +kernel)
+  exact ⟨⟨h _ (by decide), h _ (by decide), h _ (by decide)⟩,
+    ⟨⟨⟨⟨⟨⟨h _ (by decide), h _ (by decide), h _ (by decide)⟩, h _ (by decide), h _ (by decide)⟩, h _ (by decide)⟩,
+      ⟨h _ (by decide), h _ (by decide), h _ (by decide), h _ (by decide), h _ (by decide), h _ (by decide), h _ (by decide),
+        h _ (by decide), hp⟩⟩, h _ (by decide)⟩, h _ (by decide)⟩⟩
+example : (G.between (some "NOT") "between" "AND" a b (.bin .plus "+" b c)).WF = true := by decide +kernel
+
 /-- `a OR b AND c` is `a OR (b AND c)` -/
-example : pExpr 40 0 [tk .ident "a", tk .or "OR", tk .ident "b", tk .and "AND", tk .ident "c", eof] =
-    .ok (.bin "OR" (.ident "a") (.bin "AND" (.ident "b") (.ident "c"))) [eof] := by decide +kernel
+example : (pExpr 40 0 [tk .ident "a", tk .or "OR", tk .ident "b", tk .and "AND", tk .ident "c", eof]).canon =
+    "OK (id(a) OR (id(b) AND id(c))) 1" := by decide +kernel
 /-- `a - b - c` is `(a - b) - c` -/
-example : pExpr 40 0 [tk .ident "a", tk .minus "-", tk .ident "b", tk .minus "-", tk .ident "c", eof] =
-    .ok (.bin "-" (.bin "-" (.ident "a") (.ident "b")) (.ident "c")) [eof] := by decide +kernel
+example : (pExpr 40 0 [tk .ident "a", tk .minus "-", tk .ident "b", tk .minus "-", tk .ident "c", eof]).canon =
+    "OK ((id(a) - id(b)) - id(c)) 1" := by decide +kernel
 /-- parentheses override: `(a OR b) AND c` -/
 example : render 1 (.bin .and "AND" (.bin .or "OR" a b) c) =
     [lp, tk .ident "a", tk .or "OR", tk .ident "b", rp, tk .and "AND", tk .ident "c"] := by decide +kernel
-example : pExpr 40 0 (render 1 (.bin .and "AND" (.bin .or "OR" a b) c) ++ [eof]) =
-    .ok (G.toEx (.bin .and "AND" (.bin .or "OR" a b) c)) [eof] := by decide +kernel
+example : (pExpr 40 0 (render 1 (.bin .and "AND" (.bin .or "OR" a b) c) ++ [eof])).canon =
+    "OK ((id(a) OR id(b)) AND id(c)) 1" := by decide +kernel
 /-- `NOT a = b` negates the comparison -/
-example : pExpr 40 0 [tk .not "NOT", tk .ident "a", tk .cmp "=", tk .ident "b", eof] =
-    .ok (.not (.bin "=" (.ident "a") (.ident "b"))) [eof] := by decide +kernel
+example : (pExpr 40 0 [tk .not "NOT", tk .ident "a", tk .cmp "=", tk .ident "b", eof]).canon =
+    "OK not((id(a) = id(b))) 1" := by decide +kernel
+/-- `a BETWEEN b AND c AND a`: the first AND belongs to BETWEEN -/
+example : (pExpr 60 0 [tk .ident "a", tk .between "BETWEEN", tk .ident "b", tk .and "AND", tk .ident "c", tk .and "AND",
+    tk .ident "a", eof]).canon = "OK (between(id(a),id(b),id(c)) AND id(a)) 1" := by decide +kernel
+/-- `a NOT IN (b, c)` and `f(a, b) IS NOT NULL` -/
+example : (pExpr 60 0 [tk .ident "a", tk .not "NOT", tk .in_ "IN", lp, tk .ident "b", comma, tk .ident "c", rp, eof]).canon =
+    "OK !in(id(a),id(b),id(c)) 1" := by decide +kernel
+example : (pExpr 60 0 [tk .ident "f", lp, tk .ident "a", comma, tk .ident "b", rp, tk .is "IS", tk .not "NOT", tk .null "NULL",
+    eof]).canon = "OK !isnull(fn f(id(a),id(b))) 1" := by decide +kernel
+/-- a quoted identifier spelled ilike after an operand is taken for the operator, as the real parser does (by literal) -/
+example : (pExpr 60 0 [tk .ident "a", tk .ident "ilike", tk .str "x", eof]).canon = "OK ilike(id(a),str(x)) 1" := by decide +kernel
 /-- what the model does not cover is `unsupported`, not guessed -/
-example : pExpr 40 0 [tk .ident "a", tk .other "BETWEEN", tk .num "1", tk .and "AND", tk .num "2", eof] = .unsupported := by
-  decide +kernel
+example : (pExpr 40 0 [tk .ident "a", tk .cont "::", tk .ident "int", eof]).canon = "UNSUPPORTED" := by decide +kernel
 
 end GoSQLXModel.Props.C03
